@@ -1105,6 +1105,16 @@ def stack_files(fs, stackdim, coordkeys=None):
                     values = np.ma.concatenate(
                         [f_.variables[varkey][:] for f_ in fs], axis=axisi)
                     p2p.addVariable(tmpf, f, varkey, data=False)
+                    if (
+                        np.ma.is_masked(values) and
+                        not isinstance(f.variables[varkey], np.ma.MaskedArray)
+                    ):
+                        # missing cells in a later file only: the first
+                        # file's variable is no template for the mask
+                        plain = f.variables[varkey]
+                        del f.variables[varkey]
+                        f.copyVariable(plain, key=varkey, withdata=False,
+                                       fill_value=values.fill_value)
                     f.variables[varkey][:] = values
 
     return f
